@@ -227,15 +227,30 @@ impl<'a, 'tcx> B<'a, 'tcx> {
             }
             Range(lo, hi, end) => {
                 v.push(("k", J::s("range")));
-                let mut side = |pe: &Option<&'tcx hir::PatExpr<'tcx>>| match pe {
+                let lo_j = match lo {
                     Some(pe) => match &pe.kind {
                         hir::PatExprKind::Lit { lit, .. } => lit_j(lit),
+                        hir::PatExprKind::Path(q) => {
+                            let r = self.qpath(q, pe.hir_id);
+                            obj! { "t": J::s("path"), "path": r }
+                        }
                         _ => J::s("path"),
                     },
                     None => J::Null,
                 };
-                v.push(("lo", side(lo)));
-                v.push(("hi", side(hi)));
+                let hi_j = match hi {
+                    Some(pe) => match &pe.kind {
+                        hir::PatExprKind::Lit { lit, .. } => lit_j(lit),
+                        hir::PatExprKind::Path(q) => {
+                            let r = self.qpath(q, pe.hir_id);
+                            obj! { "t": J::s("path"), "path": r }
+                        }
+                        _ => J::s("path"),
+                    },
+                    None => J::Null,
+                };
+                v.push(("lo", lo_j));
+                v.push(("hi", hi_j));
                 v.push(("end", J::s(format!("{:?}", end))));
             }
             Slice(a, m, b) => {
